@@ -328,6 +328,10 @@ class Exec(ExprMixin, StmtMixin, LoopMixin, ModelMixin):
                               patterns=[T.has(o, ki)]))
         self.define(z3.ForAll([q], z3.Implies(z3.And(T.has(o, q), T.top(q)), z3.Exists([i], z3.And(i >= 0, i < m.n, q == ki))),
                               patterns=[T.has(o, q)]))
+        # shape recognised as a Template parameter dictionary: every key is f":{name}:" and every value an escaped string
+        vi = self.as_val(m.val(i))
+        if z3.is_app(ki) and ki.decl().name() == "pkey" and z3.is_app(vi) and vi.decl().name() == "str_replace" and vi.eq(T.literal(vi.arg(0).arg(0))):
+            self.define(T.pdict(o))
         return o
 
     def as_ev(self, v):
@@ -418,8 +422,14 @@ class Exec(ExprMixin, StmtMixin, LoopMixin, ModelMixin):
                 self.define(T.has_cause(e.term))
                 self.define(T.exc_cause(e.term) == cause.term)
                 self.define(T.origin(e.term) == T.origin(cause.term))
-                self.define(T.missing(e.term) == T.missing(cause.term))
-                self.define(T.mkey(e.term) == T.mkey(cause.term))
+                if "KeyNotFoundError" in self.exc_ancestors_of(e):
+                    # a missing-option error is a missing-option failure whatever it was raised from (e.g. a dependency's KeyError);
+                    # the key reported is that of the innermost missing-option error of the chain
+                    self.define(T.missing(e.term))
+                    self.define(T.mkey(e.term) == z3.If(T.missing(cause.term), T.mkey(cause.term), T.exc_key(e.term)))
+                else:
+                    self.define(T.missing(e.term) == T.missing(cause.term))
+                    self.define(T.mkey(e.term) == T.mkey(cause.term))
         elif explicit_cause and cause is not None and isinstance(e, ExcSym):
             raise Unsupported("raise <symbolic> from")
         # C12 bookkeeping: which exception is the "original" one of the failure now in flight
